@@ -49,6 +49,8 @@ func (q *PathQuery) nilAfter(n ast.Node, st int) int {
 			if identObj(info, l) == q.TrackNil {
 				if len(t.Rhs) == len(t.Lhs) && info.Types[ast.Unparen(t.Rhs[i])].IsNil() {
 					st = nilYes
+				} else if len(t.Rhs) == len(t.Lhs) && (nonNilProducer(info, t.Rhs[i]) || derefdBefore(q.Fn, t, t.Rhs[i])) {
+					st = nilNo
 				} else {
 					st = nilUnknown
 				}
@@ -66,6 +68,55 @@ func (q *PathQuery) nilAfter(n ast.Node, st int) int {
 		}
 	}
 	return st
+}
+
+// derefdBefore: x is a pointer-typed identifier one of whose fields is read or written by an
+// earlier statement of the block that contains st (so x cannot be nil when st runs, provided
+// x is not reassigned in between).
+func derefdBefore(fn *FuncInfo, st ast.Stmt, x ast.Expr) bool {
+	info := fn.Info()
+	o := identObj(info, x)
+	if o == nil {
+		return false
+	}
+	if _, isPtr := o.Type().Underlying().(*types.Pointer); !isPtr {
+		return false
+	}
+	var blk *ast.BlockStmt
+	for _, n := range pathTo(fn.Decl.Body, st) {
+		if b, ok := n.(*ast.BlockStmt); ok {
+			blk = b
+		}
+	}
+	if blk == nil {
+		return false
+	}
+	seen := false
+	for _, s := range blk.List {
+		if s == st {
+			break
+		}
+		ast.Inspect(s, func(n ast.Node) bool {
+			switch t := n.(type) {
+			case *ast.FuncLit:
+				return false
+			case *ast.AssignStmt:
+				for _, l := range t.Lhs {
+					if identObj(info, l) == o && t.Tok != token.DEFINE {
+						seen = false
+					}
+				}
+			case *ast.SelectorExpr:
+				if identObj(info, t.X) == o {
+					if sel := info.Selections[t]; sel != nil && sel.Kind() == types.FieldVal {
+						seen = true
+					}
+				}
+			}
+			return true
+		})
+	}
+	return seen
 }
 
 // nilEdge refines / prunes on `x == nil` and `x != nil` conditions; ok=false means infeasible.
